@@ -13,7 +13,9 @@ RULE = ('quoting: every string over {a, space, tab, double quote, backslash} up 
         'argument lists of up to 3 of them, plus strings drawn per character from weighted classes (plain, blank, double '
         'quote, backslash runs, cmd metacharacters, other ASCII whitespace, NUL/CR/LF (out of the domain, W tie only), '
         'non-ASCII whitespace / non-whitespace) and a corner-case corpus; non-trivial = contains a blank, quote or '
-        'backslash; distinct by exact text. GUID map: histories of up to 12 runs over a pool of project names (add, keep, '
+        'backslash; distinct by exact text. split vs the C runtime rules on arbitrary lines: every line over the same alphabet up to length 6 (quick) / 8 '
+        '(thorough), realistic flag lines, list2cmdline output damaged at one place, random lines of 7-40 characters weighted '
+        'towards quotes and backslash runs; distinct by exact text. GUID map: histories of up to 12 runs over a pool of project names (add, keep, '
         'remove, re-add, duplicate names, missing / skipped dependencies, default selection, pre-existing and too-new '
         '.bfg_uuid files) driven through the real UuidMap/Solution/Project classes with real files; non-trivial = '
         'history with at least one removal or re-add.')
@@ -136,8 +138,12 @@ def dec(name, r):
         return [(t[0], chr(t[1]) if len(t) > 1 else None) for t in r]
     if name in ('win.split', 'msvcrt.parse'):
         return d_list(d_str, r)
-    if name == 'win.cmd_s_strip':
+    if name in ('win.cmd_s_strip', 'win.join_sargs'):
         return d_opt(d_str, r)
+    if name == 'win.split_dom':
+        return [d_bool(x) for x in r]
+    if name == 'win.strip_tbs':
+        return d_str(r)
     raise KeyError(name)
 
 
@@ -289,6 +295,135 @@ def stage_r_msvcrt(rep, rng, strings, lists, n):
               texts_where_variants_differ=differ, disagreements=bad, vm_compute_rechecked=n_chk, vm_agrees=ok)
     if not ok:
         rep.fail('extraction glue: ' + detail, {'obligation': 'vm_compute == extracted model', 'detail': detail}, found_input=False)
+
+
+# ----------------------------------------------------------------------------- split vs the C runtime on arbitrary lines
+# lines bfg9000 did not write but does split: flag variables, command strings of build scripts, pkg-config output
+LINES = ['"C:\\Program Files"\\LLVM\\bin\\clang-cl.exe /nologo', '/I"C:\\my dir\\inc" /DNAME=\\"v 1\\" /W4', '-I"a b"c -L"d"\\e',
+         '"a b"=v', 'x"a b"', '"a b"x"c d"', '/DX="c\td"', 'a\\\\"b c" d', 'a\\\\\\"b c d', '"" a ""', '"a""b"', '"a"""', '""""',
+         '"a\\""b"', '"a\\\\""b"', '"unterminated a b', 'a "', 'a\\', '"a b\\', 'C:\\dir\\', '"C:\\dir\\"', '"C:\\dir\\\\"',
+         '\\\\server\\share\\ x', ' \t a \t b \t ', 'a\tb', '"a\tb"', '\\"a b\\"', '\\\\\\"', '"\\\\\\" "', 'a"b c"d e',
+         '-Wl,-rpath,"$ORIGIN/../my lib"', '/LIBPATH:"C:\\Program Files (x86)\\k\\lib"\\um\\x64 kernel32.lib']
+
+
+def split_dom_py(line):
+    """The guard WinSplit.split_dom in Python: (in domain, no final backslash, the doubled-quote rule never fires)."""
+    inq, n, nodd = False, 0, True
+    for i, c in enumerate(line):
+        if c == '\\':
+            n += 1
+            continue
+        if c == '"' and n % 2 == 0:
+            if inq and line[i + 1:i + 2] == '"':
+                nodd = False
+                break
+            inq = not inq
+        n = 0
+    tail = not line.endswith('\\')
+    return (tail and nodd, tail, nodd)
+
+
+def rand_line(rng):
+    r = rng.random()
+    if r < 0.25:      # a line some writer produced (list2cmdline), damaged at one place
+        args = [rand_string(rng, None, CLASSES_DOM) for _ in range(rng.randint(1, 4))]
+        t = subprocess.list2cmdline(args)
+        if t and rng.random() < 0.7:
+            i = rng.randrange(len(t))
+            t = rng.choice([t[:i] + t[i + 1:], t[:i] + rng.choice('"\\ \ta') + t[i:], t[:i] + t[i] + t[i:]])
+        return t
+    if r < 0.4:       # realistic lines, glued
+        return rng.choice([' ', '\t', '', '  ']).join(rng.choice(LINES) for _ in range(rng.randint(1, 3)))
+    k = rng.randint(7, 40)
+    w = rng.choice([(30, 15, 25, 25, 5), (10, 10, 40, 35, 5), (50, 20, 10, 15, 5)])
+    out = []
+    for _ in range(k):
+        cls = rng.choices(['plain', 'blank', 'dq', 'bs', 'other'], w)[0]
+        out.append({'plain': rng.choice('abXY01_-/.:='), 'blank': rng.choice(' \t'), 'dq': '"',
+                    'bs': '\\' * rng.choice([1, 1, 2, 3, 4]), 'other': rng.choice('&<>|^%\x0b\xa0\xe9\u3000')}[cls])
+    return ''.join(out)
+
+
+def stage_split_vs_crt(rep, rng, n):
+    """windows.split against the C runtime loop (crt_parse, three variants) on lines nobody at bfg9000 wrote.
+    Inside the guard split_dom (theorem C20_split_is_crt) the real windows.split, the model and crt_parse must agree
+    on every line; outside, the deviations are counted per class.  Returns the W disagreements (model vs real code)."""
+    from bfg9000.shell import windows as wshell
+    from bfg9000.safe_str import jbos, shell_literal
+    us = us_table()
+    maxlen = 8 if rep.tier == 'thorough' else 6
+    sweep = gen.all_strings(ALPHA, maxlen)
+    longer = [rand_line(rng) for _ in range(n * 5)]
+    lines = LINES + [c for c in CORPUS if '\0' not in c] + longer + sweep
+    calls, impl = [], []
+    bad = ties = 0
+    stat = {'in-guard': 0, 'dev:final-backslash-run': 0, 'dev:doubled-quote-in-quotes': 0, 'dev:both': 0,
+            'outside-guard-yet-all-readers-agree': 0, 'outside-guard:split==crt(line minus final backslashes)': 0}
+    # what the real join writes for arguments made of several pieces (jbos) <-> join_sargs; the line lies in the guard
+    LIT = 'ABCxyz019=:,./-+_'
+    outside = 0
+    for _ in range(max(60, n // 2)):
+        args, enc_args = [], []
+        for _a in range(rng.randint(1, 3)):
+            pieces = []
+            for _p in range(rng.randint(1, 4)):
+                if rng.random() < 0.5:
+                    pieces.append(shell_literal(''.join(rng.choice(LIT) for _c in range(rng.randint(1, 4)))))
+                else:
+                    t = rand_string(rng, None, CLASSES_DOM)
+                    pieces.append(t if in_domain(t) else 'p q')
+            j = jbos(*pieces)
+            args.append(j)
+            enc_args.append([1, [[0, b] if isinstance(b, str) else [1, b.string] for b in j.bits]])
+        line = wshell.join(args)
+        calls.append(('win.join_sargs', [us, enc_args])); impl.append(line)
+        calls.append(('win.split_dom', [line])); impl.append(list(split_dom_py(line)))
+        if not split_dom_py(line)[0]:
+            outside += 1
+    for line in lines:
+        real = wshell.split(line)
+        crt = [crt_parse(line, dd) for dd in (0, 1, 2)]
+        dom, tail, nodd = split_dom_py(line)
+        rep.case('l:' + line, nontrivial(line))
+        calls.append(('win.split', [line])); impl.append(real)
+        calls.append(('win.split_dom', [line])); impl.append([dom, tail, nodd])
+        if len(line) <= 6 or len(line) > maxlen:       # the R model itself (the sweep to length 6 and the longer lines)
+            for dd in (0, 1, 2):
+                calls.append(('msvcrt.parse', [dd, line])); impl.append(crt[dd])
+        # the theorems, instantiated on the real code: per variant under its own guard
+        wrong = [dd for dd in (0, 1, 2) if tail and (nodd or dd == 0) and real != crt[dd]]
+        if wrong:
+            bad += 1
+            if bad <= 10:
+                rep.fail('the line %r is split into %r by windows.split, the Microsoft C runtime rules (variant %d) give %r' % (
+                    line, real, wrong[0], crt[wrong[0]]),
+                    {'line': line, 'split': real, 'crt': {str(dd): crt[dd] for dd in (0, 1, 2)}, 'in_guard': [dom, tail, nodd],
+                     'replay_hint': 'from bfg9000.shell import windows as w; w.split(LINE)'}, classes=())
+        if dom:
+            stat['in-guard'] += 1
+            continue
+        stat['dev:both' if not tail and not nodd else 'dev:final-backslash-run' if not tail else 'dev:doubled-quote-in-quotes'] += 1
+        if all(real == c for c in crt):
+            stat['outside-guard-yet-all-readers-agree'] += 1
+        # C20_split_is_crt_stripped, no guard at all
+        if real == crt_parse(line.rstrip('\\'), 0):
+            stat['outside-guard:split==crt(line minus final backslashes)'] += 1
+        else:
+            ties += 1
+    dis = common.compare_model(rep, 'W:split/split_dom/join_sargs + R:msvcrt on arbitrary lines', calls, impl, dec, vm_limit=260)
+    rep.stage('R/W:split-vs-crt on arbitrary lines', lines=len(lines), swept_to_length=maxlen, longer_random_lines=len(longer),
+              failures_inside_guard=bad, join_images_outside_guard=outside, **stat)
+    for k, v in stat.items():
+        rep.count('split-vs-crt:' + k, v)
+    if stat['outside-guard-yet-all-readers-agree'] and not bad:
+        rep.fail('%d lines outside split_dom are read alike by windows.split and all variants of the C runtime rules (theorem '
+                 'C20_split_dom_exact says every such line deviates)' % stat['outside-guard-yet-all-readers-agree'],
+                 {'obligation': 'W:split_dom exact on the real code'}, found_input=False)
+    if ties and not bad:
+        rep.fail('windows.split no longer reads a line as the C runtime reads the line without its final backslash run '
+                 '(theorem C20_split_is_crt_stripped, %d lines)' % ties, {'obligation': 'W:split == crt(strip_tbs line)'},
+                 found_input=False)
+    return dis, bad
 
 
 # ----------------------------------------------------------------------------- oracle on the implementation
@@ -727,6 +862,8 @@ def run(rep):
     dis = stage_w_quote(rep, rng, strings, lists, n)
     dis += stage_w_cmdwrap(rep, rng, lists)
     stage_r_msvcrt(rep, rng, strings, lists, n)
+    sdis, _ = stage_split_vs_crt(rep, rng, n)
+    dis += sdis
     found = stage_oracle_quote(rep, rng, strings, lists, n * (10 if dis else 1))
     if dis and not rep.n_with_input:
         i, call, iv, mv = dis[0]
@@ -765,6 +902,19 @@ def replay(rep, path):
                      {'history': h, 'results': results}, classes=fail[1])
         else:
             print('replayed history no longer fails')
+        return
+    if 'line' in r and 'crt' in r:
+        from bfg9000.shell import windows as wshell
+        line = r['line']
+        dom, tail, nodd = split_dom_py(line)
+        real = wshell.split(line)
+        for dd in (0, 1, 2):
+            if tail and (nodd or dd == 0) and real != crt_parse(line, dd):
+                rep.fail('the line %r is split into %r by windows.split, the Microsoft C runtime rules (variant %d) give %r' % (
+                    line, real, dd, crt_parse(line, dd)), {'line': line, 'split': real, 'crt': {str(dd): crt_parse(line, dd)}},
+                    classes=())
+                return
+        print('replayed line no longer fails')
         return
     if 'args' in r and 'written' in r:
         from bfg9000.shell import windows as wshell
